@@ -6,15 +6,29 @@ from fractions import Fraction as F
 from harness.common import lean_int, lean_list, lean_str
 
 PID = 'C05'
-MODULES = ['NoteSeqVerif.Props.C05']
+_P = 'NoteSeqVerif.Props.C05'
+_F = 'NoteSeqVerif.Props.C05_float'      # the timing clause for every `Rounding R` (uses Proofs/Rounding*, Proofs/C05Float)
+MODULES = ['NoteSeqVerif.Proofs.C05Float', _F, _P]
 EXE = 'drv_c05'
-THEOREMS = ['NSV.C05.' + t for t in (
+THEOREMS = [(_P, 'NSV.C05.' + t) for t in (
     'mxml_chord_onset_exact', 'mxml_pitch', 'mxml_pitch_steps', 'mxml_key', 'mxml_key_table', 'mxml_key_transpose',
     'mxml_cursor', 'mxml_time_partial', 'mxml_time_first_part', 'mxml_part_start', 'mxml_time_later_part_partial',
     'mxml_note_times', 'mxml_total_time', 'mxml_tempo_marks', 'mxml_harmony_time', 'mxml_time_fails_today',
     'mxml_attrs', 'mxml_rests_dropped', 'mxml_channel_program', 'mxml_score_part_declared',
     'mxml_time_signature_declared', 'mxml_time_signature_complete', 'mxml_time_signatures_reported',
-    'mxml_key_signatures_reported', 'mxml_harmony', 'mxml_harmony_alter_table', 'mxml_harmony_kind_table')]
+    'mxml_key_signatures_reported', 'mxml_harmony', 'mxml_harmony_alter_table', 'mxml_harmony_kind_table')] + [
+    (_F, 'NSV.C05.' + t) for t in (
+    # where a part starts (float state follows the context in force; F-C05-4 as in the exact theorems)
+    'mxml_float_part_start', 'mxml_float_first_part', 'mxml_float_later_part_partial',
+    # error bounds: relative without <backup>, absolute with; exactness on dyadic scores
+    'mxml_time_float', 'mxml_cursor_float', 'mxml_time_float_backup', 'mxml_cursor_float_backup',
+    'mxml_time_float_exact_dyadic', 'mxml_cursor_float_exact_dyadic',
+    # structure: signs, representability, order, total_time
+    'mxml_float_step', 'mxml_float_cursor', 'mxml_float_structure', 'mxml_float_monotone',
+    'mxml_float_total_first_part',
+    # the full float statement is violated by the model on the F-C05-4 replay
+    'mxml_time_float_fails_today')] + [
+    (_F, 'NSV.rounding_rne53')]       # the executable rne53 is a `Rounding`: every float theorem applies to the driver's arithmetic
 
 
 def lean_rat(x):
